@@ -328,7 +328,32 @@ def call(ctx, case, w, S, i, expect, argdesc, obj=None):
 def mutate(ctx, w, S, rng, i, who):
     o = w.env[i]
     stream = w.stream
-    kind = rng.choice(["move", "moveto", "rotate", "setpos", "view", "collinear"] + (["resids"] if who == "argument" else []))
+    kind = rng.choice(["move", "moveto", "rotate", "setpos", "view", "collinear"]
+                      + (["resids", "coincident"] if who == "argument" else []))
+    if kind == "coincident":
+        # a degenerate argument: an anchor's SECOND frame neighbour sits exactly on the anchor (virtual sites, the
+        # three decimals of a .gro).  The frame is undefined there (the mapped coordinates of that anchor's atoms
+        # are NaN — outside C01-C03's quantifier), but purity is unconditional: the argument's coordinates must be
+        # what they were (seed C04-8: the overlapping neighbour is "nudged" through a live atom view)
+        n = len(o)
+        try:
+            nbs = [sorted(int(b) for b in at.bonds) for at in o.molecule_top]
+        except Exception:   # noqa: BLE001
+            nbs = []
+        anchors = [a for a in range(len(nbs)) if len(nbs[a]) >= 2]
+        if not anchors:
+            kind = "setpos"
+        else:
+            a = rng.choice(anchors)
+            P = [hg.vec(rng, stream) for _ in range(n)]
+            P[nbs[a][1]] = list(P[a])
+
+            def fn():
+                o.atoms_positions = w.ro(np.array(P, dtype=float).reshape(n, 3))
+            st, _ = w.run(f"setpos {i} {n} " + " ".join(tok_v3(p) for p in P),
+                          f"{who}.atoms_positions= (second frame neighbour of anchor {a} on the anchor)", fn)
+            ctx.count(f"mutate:{who}:coincident-second-neighbour:{st}")
+            return st
     if kind == "resids":
         # residue numbers (coordinate side only: assigned atom by atom through views, the shared topology is not
         # touched) with gaps, out of order, or straddling the 99999 -> 0 wrap of a large .gro file: the result
